@@ -994,7 +994,7 @@ class RZILTransformer(Transformer):
         prefix = items[0]
         if prefix == "sizeof":
             op = items[1]
-            return self.add_op(Sizeof(f"op_sizeof_{op.get_name()}", op))
+            return self.add_op(Sizeof(f"op_sizeof_{op.pure_var()}", op))
         val_type = self.ext.get_val_type_by_fcn(prefix)
         param = self.cast_sub_routine_args(prefix, items[1:])
 
